@@ -403,6 +403,70 @@ def generate_calls():
     return '\n'.join(lines), failed
 
 
+def rng_census():
+    """every reference to a source of randomness other than a chain's own generator, over all of epsie/:
+    names imported from numpy.random / random, attribute chains through numpy.random or the stdlib random module,
+    and scipy-style `.rvs(` calls (which draw from the process-wide RandomState unless given one)"""
+    imports, uses = [], []
+    base = os.path.join(REPO, 'epsie')
+    for root, _, files in sorted(os.walk(base)):
+        for fn in sorted(files):
+            if not fn.endswith('.py'):
+                continue
+            path = os.path.join(root, fn)
+            rel = os.path.relpath(path, REPO)
+            tree = ast.parse(open(path).read())
+            for n in ast.walk(tree):
+                if isinstance(n, ast.ImportFrom) and n.module in ('numpy.random', 'random', 'numpy.random.mtrand'):
+                    for a in n.names:
+                        imports.append('%s:%s.%s' % (rel, n.module, a.name))
+                elif isinstance(n, ast.Import):
+                    for a in n.names:
+                        if a.name in ('random', 'numpy.random') or a.name.startswith('numpy.random.'):
+                            imports.append('%s:%s' % (rel, a.name))
+                elif isinstance(n, ast.Attribute):
+                    chain = []
+                    m = n
+                    while isinstance(m, ast.Attribute):
+                        chain.append(m.attr)
+                        m = m.value
+                    if isinstance(m, ast.Name):
+                        chain.append(m.id)
+                        full = '.'.join(reversed(chain))
+                        if full.startswith(('numpy.random.', 'np.random.', 'random.')) and full.count('.') >= (2 if not full.startswith('random.') else 1):
+                            uses.append('%s:%s' % (rel, full))
+                if isinstance(n, ast.Call) and isinstance(n.func, ast.Attribute) and n.func.attr == 'rvs':
+                    uses.append('%s:.rvs()' % rel)
+                if isinstance(n, ast.Call) and isinstance(n.func, ast.Attribute) and n.func.attr in ('default_rng', 'RandomState', 'seed'):
+                    uses.append('%s:.%s()' % (rel, n.func.attr))
+    return sorted(set(imports)), sorted(set(uses))
+
+
+def generate_rng():
+    lines = ['(* GENERATED by tools/py2coq.py from the current /repo sources - do not edit. *)',
+             'From Coq Require Import String List.', 'Import ListNotations.', 'Local Open Scope string_scope.', '']
+    failed = []
+    try:
+        imports, uses = rng_census()
+        lines.append('Definition src_rng_imports : list string := [%s].' % '; '.join('"%s"' % a for a in imports))
+        lines.append('')
+        lines.append('Definition src_global_rng_uses : list string := [%s].' % '; '.join('"%s"' % a for a in uses))
+    except (SyntaxError, OSError) as e:
+        lines.append('(* src_rng_imports: NOT TRANSLATED: %s *)' % str(e).replace('*)', '* )'))
+        failed.append(('src_rng_imports', str(e)))
+    lines.append('')
+    return '\n'.join(lines), failed
+
+
+def write_if_changed(path, text):
+    old = open(path).read() if os.path.exists(path) else None
+    if old != text:
+        os.makedirs(os.path.dirname(path), exist_ok=True)
+        with open(path + '.tmp', 'w') as f:
+            f.write(text)
+        os.replace(path + '.tmp', path)
+
+
 def generate():
     lines = ['(* GENERATED by tools/py2coq.py from the current /repo sources - do not edit. *)',
              'From Coq Require Import ZArith Bool.', 'Local Open Scope Z_scope.', '']
@@ -430,6 +494,14 @@ def main():
                     f.write(text2)
                 os.replace(sys.argv[2] + '.tmp', sys.argv[2])
         for name, err in failed2:
+            print('py2coq: %s not translated: %s' % (name, err), file=sys.stderr)
+    if len(sys.argv) > 3 or out is None:
+        text3, failed3 = generate_rng()
+        if out is None:
+            print(text3)
+        else:
+            write_if_changed(sys.argv[3], text3)
+        for name, err in failed3:
             print('py2coq: %s not translated: %s' % (name, err), file=sys.stderr)
     text, failed = generate()
     if out is None:
